@@ -713,7 +713,36 @@ func (nz *normaliser) containsLoopsIn(f *ast.File) {
 			cond = &ast.BinaryExpr{X: ast.NewIdent("_e"), Op: token.EQL, Y: ast.NewIdent("_v")}
 		} else {
 			lit, ok := ce.Args[1].(*ast.FuncLit)
-			if !ok || len(lit.Body.List) != 1 || lit.Type.Params == nil || len(lit.Type.Params.List) != 1 || len(lit.Type.Params.List[0].Names) != 1 {
+			if !ok {
+				// a function or method value f: as if it were func(e T) bool { return f(e) }
+				var fun ast.Expr
+				switch x := ce.Args[1].(type) {
+				case *ast.Ident:
+					if fo, isF := nz.info.Uses[x].(*types.Func); isF && fo.Parent() == nz.pkg.Types.Scope() {
+						fun = x
+					}
+				case *ast.SelectorExpr:
+					if _, isId := x.X.(*ast.Ident); isId {
+						if sel := nz.info.Selections[x]; sel != nil && sel.Kind() == types.MethodVal {
+							fun = x
+						} else if _, isF := nz.info.Uses[x.Sel].(*types.Func); isF && sel == nil {
+							fun = x // pkg.Func
+						}
+					}
+				}
+				if fun == nil {
+					return true
+				}
+				pf, err := parser.ParseExpr("func(_e " + types.TypeString(sl.Elem(), qual) + ") bool { return _F_(_e) }")
+				if err != nil {
+					return true
+				}
+				lit = copyNode(pf).(*ast.FuncLit)
+				lit.Body.List[0].(*ast.ReturnStmt).Results[0].(*ast.CallExpr).Fun = fun
+				// positions: the synthetic literal has none; captured-variable detection below uses
+				// the literal's extent only to exclude its own parameter, which is named _e here
+			}
+			if len(lit.Body.List) != 1 || lit.Type.Params == nil || len(lit.Type.Params.List) != 1 || len(lit.Type.Params.List[0].Names) != 1 {
 				return true
 			}
 			rs, ok := lit.Body.List[0].(*ast.ReturnStmt)
@@ -740,7 +769,7 @@ func (nz *normaliser) containsLoopsIn(f *ast.File) {
 					if !isVar || v.IsField() || v.Parent() == nz.pkg.Types.Scope() || v.Parent() == types.Universe {
 						return true
 					}
-					if v.Pos() >= lit.Pos() && v.Pos() <= lit.End() {
+					if lit.Pos().IsValid() && v.Pos() >= lit.Pos() && v.Pos() <= lit.End() {
 						return true // the literal's own parameter
 					}
 					if !seen[v] {
